@@ -1,1 +1,2 @@
 pub mod calendar;
+pub mod instant;
